@@ -317,11 +317,11 @@ impl Sim {
                 }
             }
         }
-        // batches newly handed to the loader
-        let mut calls: Vec<Vec<u64>> = vec![];
+        // batches newly handed to the loader, with the task that made the call
+        let mut calls: Vec<(u64, Vec<u64>)> = vec![];
         {
             let c = self.ctl.lock().unwrap();
-            for call in &c.calls[self.seen_calls..] {
+            for (i, call) in c.calls.iter().enumerate().skip(self.seen_calls) {
                 let mut k = call.keys.clone();
                 k.sort();
                 let l = k.len();
@@ -329,7 +329,10 @@ impl Sim {
                 if k.len() != l {
                     self.anomaly = Some(4); // a key twice in one batch
                 }
-                calls.push(k);
+                match self.task_call.iter().find(|(_, ci)| **ci == i) {
+                    Some((t, _)) => calls.push((*t, k)),
+                    None => self.anomaly = Some(11), // a loader call made by no spawned task
+                }
             }
             self.seen_calls = c.calls.len();
         }
@@ -344,7 +347,7 @@ impl Sim {
         let txt = format!("calls{:?} done{:?}", calls, done.iter().map(|(w, r)| (*w, r.as_ref().map(|m| { let mut v: Vec<_> = m.iter().map(|(k, x)| (*k, *x)).collect(); v.sort(); v }).map_err(|e| *e))).collect::<Vec<_>>());
         let og = match self.anomaly {
             Some(a) => format!("(SAnom {})", n(a)),
-            None => format!("(SO {} {})", g_list(calls.iter(), |c| g_keys(c)), dg),
+            None => format!("(SO {} {})", g_list(calls.iter(), |(t, c)| format!("({}, {})", n(*t), g_keys(c))), dg),
         };
         (sg, og, txt)
     }
